@@ -57,7 +57,7 @@ def run():
         if s["vectors"] == 0:
             raise vlib.Inconclusive("no vectors reached the driver")
     cov["replay"] = {k: s.get(k) for k in ("vectors", "parses", "nontrivial", "classes")}
-    cov["samples"] += [{"vector": x} for x in s.get("samples", [])[:3]]
+    cov["samples"] += [{"vector": x} for x in (s.get("samples") or [])[:3]]
 
     # leg T
     out = os.path.join(sub("out"), "cp.trace.ndjson")
